@@ -8,6 +8,9 @@ C20  A generated program (lets, DEF FNs, calls) is RUN in interact mode. Every c
      blocked poll inside the evaluation: a key, Ctrl-Break (then CONT), QUIT (suspend -> close ->
      resume) or a trapped F1 (ON KEY(1) GOSUB). Bodies contain fault-prone subexpressions,
      conversions that fail, self/mutual recursion. Forced GC (seam S7) and small memories.
+     Parameter lists may name one variable more than once: literally (A$,A$), through sigil
+     completion (X,X!) or through the DEFtype in force for K (DEFINT K: K,K%); the dumps cover
+     K!, K% and K# as well. Which argument a repeated parameter shows in the body is left unknown.
      Oracles: dump after == dump before (apart from the assignment target); dumps == model;
      result / error code / ERL == a small reference evaluator; recursion -> error 7.
 
@@ -15,8 +18,13 @@ C21  A generated program of multi-statement lines, nested GOSUBs and a fixed err
      fault sites are ERROR n, real runtime faults and device statements whose host call fails
      with a chosen errno for the first r attempts (simfs), the handler resumes by RESUME /
      RESUME NEXT / RESUME n / ON ERROR GOTO 0 as selected by a variable set at the site; then
-     direct-mode lines. Oracle: a reference model of the statement pointer; full trace equality;
-     bounded liveness in polls once the faults stop.
+     direct-mode lines. Schedules: an ON KEY(1) GOSUB routine (fault sites from its first statement
+     on) entered between two statements when the simulated user presses F1 during a wait - taken
+     at once, or remembered under KEY(1) STOP and taken after KEY(1) ON / the routine's RETURN;
+     STOP in the program and inside the handler (B%), each Break answered by a typed CONT; a second,
+     bare handler (RESUME <exit line>, evaluates nothing) whose landing line may start with STOP.
+     Oracle: a reference model of the statement pointer; full trace equality; bounded liveness in
+     polls once the faults stop.
 """
 
 import os
@@ -46,6 +54,10 @@ ASSUMPTIONS = [
     'C20: values are restricted to short alphanumeric strings and multiples of 1/4 so that the reference '
     'evaluator needs no float formatting; .5 -> integer rounding, soft (untrapped) float errors and '
     'dynamic scoping of an outer function\'s parameter are left unchecked (result unknown)',
+    'C21: event trapping only as documented for KEY(n) ON/STOP and the automatic stop/re-enable around the '
+    'trap routine; explicit KEY(1) statements while the routine has not returned, KEY(1) OFF with a key press '
+    'remembered, a pending trap in program code run from a direct line, STOP in a direct line and RETURN/RESUME '
+    'into a direct line replaced by CONT are left unchecked (model stops comparing)',
     'C21: read/write faults use EIO only (stream errors are documented as Device I/O error); '
     'host write faults on PRINT# are not generated (known defect: OSError escapes TextFileBase.write)',
 ]
@@ -1401,6 +1413,8 @@ MAIN0 = 100
 FIN21 = 4000
 SUB0 = 5000
 T0 = 6000          # the ON KEY(1) GOSUB subroutine
+XL = 3990          # exit line: where the bare handler resumes (statements in cfg['exit']), then FIN
+HX = 9500          # the bare handler: nothing but RESUME XL
 H0 = 9000
 HB = H0 + 15       # the handler's STOP
 MAX_CONT = 40
@@ -1453,7 +1467,7 @@ def expand(stmts):
         elif k == 'ret':
             out.append(('RETURN', ('ret',)))
         elif k == 'onerr':
-            out.append(('ON ERROR GOTO %d' % (H0 if st[1] else 0), ('onerr', st[1])))
+            out.append(('ON ERROR GOTO %d' % {0: 0, 1: H0, 2: HX}[st[1]], ('onerr', st[1])))
         elif k == 'resume':
             f = st[1]
             txt = 'RESUME' if f == '' else ('RESUME NEXT' if f == 'NEXT' else 'RESUME %d' % main_line(f))
@@ -1519,6 +1533,8 @@ def handler_lines(cfg):
     lines.append('%d RESUME NEXT' % (H0 + 70))
     for j, k in enumerate(land):
         lines.append('%d RESUME %d' % (H0 + 200 + 10 * j, main_line(k)))
+    # a second handler that evaluates nothing: straight to the exit line
+    lines.append('%d RESUME %d' % (HX, XL))
     return lines
 
 
@@ -1542,6 +1558,9 @@ def program21(cfg, ops):
             continue
         lines[n] = '%d %s' % (n, ':'.join(t for t, _ in ex))
         atoms[n] = [sem for _, sem in ex]
+    ex = expand(cfg.get('exit') or []) or [('REM', ('nop',))]
+    lines[XL] = '%d %s' % (XL, ':'.join(t for t, _ in ex))
+    atoms[XL] = [sem for _, sem in ex]
     lines[FIN21] = '%d PRINT "#FIN|":END' % FIN21
     atoms[FIN21] = [('fin',), ('end',)]
     for l in handler_lines(cfg):
@@ -1681,6 +1700,13 @@ class Model21(object):
         if self.run is not None:
             self.run.state('err', code if isinstance(code, tuple) or code in ERRMSG else -1, self.R, self.on_error, self.in_handler,
                            len(self.gosub) > 0, p[0], self.remaining() > 0)
+        if self.on_error == 2 and not self.in_handler:
+            # the bare handler: RESUME XL and nothing else
+            self.steps += 1
+            if self.run is not None:
+                self.run.probe('resumed-by-bare-handler')
+            self.leave_handler()
+            return self.line_ptr(XL)
         if self.on_error and not self.in_handler:
             self.resume_ptr = p
             self.stale_resume = False
@@ -1777,6 +1803,8 @@ class Model21(object):
             self.run.state('st', k, self.on_error, self.in_handler, len(self.gosub) > 0, p[0])
         if k == 'mark':
             self.ev.append(('M', sem[1]))
+        elif k == 'nop':
+            pass
         elif k == 'fin':
             self.ev.append(('FIN',))
         elif k == 'end':
@@ -1802,10 +1830,10 @@ class Model21(object):
         elif k == 'selb':
             self.B = sem[1]
         elif k == 'stop':
-            if p[0] == 'D' or self.direct_phase:
-                # STOP in a direct line, or in program code entered from a direct line: where CONT
-                # continues then is not this property's subject (and quirky in GW-BASIC): left out
-                raise Unspec()
+            if p[0] == 'D':
+                raise Unspec()        # STOP in a direct line: nothing to continue, left out
+            # (in program code entered from a direct line CONT continues the program code; the
+            # RETURN into the replaced direct line is what is left out, see 'ret')
             self.do_break(p[1])
         elif k == 'onkey':
             if self.line_ptr(T0) is None:
@@ -1851,7 +1879,7 @@ class Model21(object):
                 raise Unspec()        # return into a direct line that has been replaced: left out
             return back
         elif k == 'onerr':
-            self.on_error = bool(sem[1])
+            self.on_error = 2 if sem[1] == 2 else bool(sem[1])
             self.math_trapped = bool(sem[1])
             if not sem[1] and self.in_handler:
                 raise Unspec()
@@ -2052,6 +2080,10 @@ def gen21(rng, tier):
     landings = sorted(rng.sample(ids, min(len(ids), rng.randint(0, 3))))
     faulty = rng.random() < 0.6
     cfg = {'lim': rng.choice([3, 5, 8]), 'landings': landings, 'session': {}, 'world': {}, 'c21': True}
+    # the exit line (before FIN): often starts with a STOP, so that the first thing after a
+    # RESUME XL from the bare handler is a Break, answered by CONT
+    xs = rng.choice([[['stop'], ['m', 900]], [['stop'], ['m', 900]], [['m', 900]], [['m', 900], ['stop'], ['m', 901]]])
+    cfg['exit'] = xs
     cx = {'landings': landings, 'faulty': faulty, 'faults': [], 'nfile': 0}
     ops = []
     marker = [0]
@@ -2075,7 +2107,7 @@ def gen21(rng, tier):
                 stmts.append(['gosub', rng.choice(sub_ids)])
                 stmts.append(mark())
             elif r < 0.80:
-                stmts.append(['onerr', 1 if rng.random() < 0.75 else 0])
+                stmts.append(['onerr', rng.choice([1] * 14 + [2] * 3 + [0] * 5)])
             elif r < 0.82:
                 stmts.append(['resume', rng.choice(['', 'NEXT'] + landings[:1])])
                 stmts.append(mark())
@@ -2159,6 +2191,9 @@ def gen21(rng, tier):
 def simplify21(cfg, ops):
     if cfg['landings']:
         yield dict(cfg, landings=cfg['landings'][:-1]), ops
+    if cfg.get('exit'):
+        for j in range(len(cfg['exit'])):
+            yield dict(cfg, exit=cfg['exit'][:j] + cfg['exit'][j + 1:]), ops
     for i, op in enumerate(ops):
         if op['op'] == 'fault' and op['r'] > 1:
             yield cfg, ops[:i] + [dict(op, r=op['r'] - 1)] + ops[i + 1:]
@@ -2362,7 +2397,10 @@ def judge21(run, cfg, ops, model, out, polls, typed, stalled, fs):
         if e[0] in ('E', 'stop', 'derr') and isinstance(e[1], tuple) and g[0] == e[0] and g[1] in e[1] and g[2:] == e[2:]:
             continue
         if e != g:
-            run.violate('C21', 'trace-mismatch:model-%s:engine-%s%s' % (_evclass(e), _evclass(g), _history_class(exp, i)),
+            hist = _history_class(exp, i)
+            if i and exp[i - 1][0] == 'break' and g == exp[i - 1]:
+                hist += ':cont-repeated-the-stop'
+            run.violate('C21', 'trace-mismatch:model-%s:engine-%s%s' % (_evclass(e), _evclass(g), hist),
                         'event %d: model %r, engine %r\nmodel  %r\nengine %r\nprogram:\n%s\ndirect: %r\nfaults: %r\n%s' % (
                             i, e, g, exp, got, listing, directs, faults, _tail(out)))
             return
